@@ -17,7 +17,8 @@ EVIDENCE = dict(
          "stand-alone and inside a project, the options record is located through the TLV layer and the files are "
          "reloaded; Trace_RVOptions checks assignment result, record bytes = Pack, reloaded values, exclusivity and "
          "bounds. Single assignments are also made by constructor keyword, and every seventh case runs with the library's loggers "
-         "at DEBUG. non-trivial = at least one option differs from its default.",
+         "at DEBUG. non-trivial = at least one option differs from its default."
+         " Labels that spell an option's name (three spellings) on an exposed user-defined controller; an option written on a clone / on the original leaves the other object's options as they were.",
     explanation="complete over single options and over pairs within the stated value sets")
 
 
